@@ -95,7 +95,7 @@ type Config struct {
 	MapSites       map[string]bool
 	KeepLog        int // number of trailing log lines kept
 	FullLog        bool
-	Paranoid       bool // verify goroutine identity on every Step (slow)
+	Paranoid       bool   // verify goroutine identity on every Step (slow)
 	StepHook       func() // called on every Step of every task (measurement in reference runs)
 }
 
@@ -115,12 +115,12 @@ type Sim struct {
 	cfg Config
 	src Source
 
-	mu     sync.Mutex
-	tasks  []*Task
-	byGoid map[int64]*Task
-	cur    *Task
-	last   *Task
-	kick   chan struct{}
+	mu      sync.Mutex
+	tasks   []*Task
+	byGoid  map[int64]*Task
+	cur     *Task
+	last    *Task
+	kick    chan struct{}
 	abortCh chan struct{} // closed by finish(): sleeping tasks leave their sleep and exit
 
 	steps         int64
@@ -730,6 +730,14 @@ func (s *Sim) Probe(name string)  { s.Probes[name]++ }
 func (s *Sim) Fault(name string)  { s.Faults[name]++ }
 func (s *Sim) Now() time.Duration { return time.Since(s.start) }
 func (s *Sim) TotalSteps() int64  { return s.steps }
+
+// CurSteps is the number of steps the running task itself has executed.
+func (s *Sim) CurSteps() int64 {
+	if s.cur == nil {
+		return 0
+	}
+	return s.cur.steps
+}
 
 // CurID is the id of the running task (-1 for the scheduler).
 func (s *Sim) CurID() int {
